@@ -14,7 +14,12 @@
     ([rf_out]) are keyed by the distinct ids.  A date/time cell (column declared DATE / DATETIME /
     TIMESTAMP) is [VTime ns], the instant in nanoseconds since the Unix epoch: the harness writes the
     source value as ISO 8601 text, reads the target cell raw and parses it, so a change of the text
-    layout (the driver's) is no difference and a change of the instant is one.
+    layout (the driver's) is no difference and a change of the instant is one.  Every attribute cell is
+    read raw together with SQLite's typeof: TEXT = [VText id], BLOB = [VBlob id] (distinct values also for
+    the same bytes), the integer 0 / 1 of a BOOLEAN column = [VInt 0] / [VInt 1] (the Go bool in between is
+    the integer the driver binds it as).  Rows are observed in the order the target table stores them
+    (ORDER BY rowid), which must be the source's stored order -- not the key order, when the key is no
+    rowid alias.
 
     [PathCase]: injectSuffixIntoPath recomputed by the harness with Go's packages strings (ReplaceAll), path
     (Split, Ext, Join) + fmt.Sprintf on arbitrary paths (also unclean ones: "a//b/../x.y"; with '%', "%v", "%%",
